@@ -34,13 +34,12 @@ FAMILY_RULES = {
                     "transpose_ab_matmul_add_to_gemm_rule", "gemm_to_matmul_add_rule", "remove_optional_bias_from_gemm_rule",
                     "remove_optional_bias_from_conv_rule", "one_reshape_matmul_reshape_rule", "two_reshapes_matmul_reshape_rule"],
     "conv": ["fuse_batchnorm_into_conv_rule", "fuse_batchnorm_into_gemm_rule", "affine_conv_fusion_rule", "conv_affine_fusion_rule",
-             "fuse_pad_into_conv_rule", "normalize_pad_format_conv_rule", "remove_optional_bias_from_conv_rule"],
+             "fuse_pad_into_conv_rule", "normalize_pad_format_conv_rule", "remove_optional_bias_from_conv_rule",
+             "fuse_batchnorm_into_conv_transpose_rule", "remove_optional_bias_from_conv_transpose_rule"],
     "scatter": ["no_op_static_scatter_nd_rule", "no_op_dynamic_scatter_nd_rule"],
     "conv_integer": ["fuse_pad_into_conv_integer_rule", "normalize_pad_format_conv_integer_rule"],
 }
 NOT_ENCODED_RULES = {
-    "fuse_batchnorm_into_conv_transpose_rule": "ConvTranspose not encoded",
-    "remove_optional_bias_from_conv_transpose_rule": "ConvTranspose not encoded",
     "remove_optional_bias_from_qlinear_conv_rule": "QLinearConv not encoded",
 }
 
